@@ -237,6 +237,9 @@ def step (st : St) (line : String) : St × String :=
         (st, showE showPTrace (readCigar ((firstRef written).getD 0) (printOps ops)))
     | some (_, _, _, .error e) => (st, "ERR:" ++ e.toString)
     | none => (st, "bad-op")
+  | ["icol", _] =>
+    -- `alignment[i]` with an integer: a single column is not an alignment (IndexError since fix 4fe9253f)
+    (st, "ERR:IndexError")
   | ["tset", i, k, v] =>
     -- `alignment.trace[i, k] = v` in place
     match i.toNat?, k.toNat?, parseEntry v with
